@@ -47,7 +47,28 @@ Example C04_example :
   end.
 Proof. vm_compute. repeat split; reflexivity. Qed.
 
+(* ---- the geometry-faithful model ----
+   what a consumer of the geometry-faithful model (iovec/Geo.v: slices as pointers into arena chunks, merge decisions
+   computed) can look at -- the slices of stable_prefix -- holds exactly the stable bytes of the related pipe state;
+   with C03_geo_refines_pipe (every Geo history is matched by a pipe history, ending in related states with the pipe
+   side in Inv) the theorems above apply: the exposed bytes are a hole-free prefix that never reaches a pending
+   placeholder, and iovs() succeeds iff nothing is pending. *)
+From WP Require iovec.Geo iovec.GeoProofs iovec.GeoRefine iovec.GeoHistory.
+Theorem C04_geo_exposed_bytes h g s st : GeoRefine.R h g s -> Geo.stable_slices g = Some st ->
+  concat (map (Geo.sl_bytes h) st) = stable_bytes s.
+Proof. exact (GeoHistory.R_stable_bytes h g s st). Qed.
+Theorem C04_geo_history_exposes_no_hole ops h' g' xs st :
+  GeoHistory.g1run [] Geo.empty_iov ops = Some (h', g', xs) -> Geo.stable_slices g' = Some st ->
+  exists s', GeoRefine.R h' g' s' /\ Inv s' /\
+             exists t, stable_cells (abs s') = concat (map (Geo.sl_bytes h') st) ++ t.
+Proof. exact (GeoHistory.geo_history_exposes_no_hole ops h' g' xs st). Qed.
+Theorem C04_geo_pending_iff h g s : GeoRefine.R h g s -> Geo.has_pending g = negb (iovs_ok s).
+Proof. exact (GeoHistory.geo_pending_iff h g s). Qed.
+
 Print Assumptions C04_holes_invisible.
+Print Assumptions C04_geo_exposed_bytes.
+Print Assumptions C04_geo_history_exposes_no_hole.
+Print Assumptions C04_geo_pending_iff.
 Print Assumptions C04_observed_stable.
 Print Assumptions C04_ok_iff_no_hole.
 Print Assumptions C04_all_filled.
